@@ -102,3 +102,4 @@ def generate(rng, tier):
             yield Case("clone.u", [hx(a), hx(b)])
         else:
             yield Case("clone.i", [hx(signed(rng, a)), hx(signed(rng, b))])
+READY = True
